@@ -782,6 +782,10 @@ mod sync {
                                     if !prev_waker.is_null() {
                                         unsafe {prev_waker.drop_in_place()}
                                     }
+                                    /* the handler may have run between the check above and the publishing of the waker */
+                                    if CATCH.load(Ordering::SeqCst) {
+                                        return Poll::Ready(None)
+                                    }
                                 }
                                 #[cfg(any(feature="rt_glommio"))] {
                                     let current_id = glommio::executor().id();
